@@ -83,6 +83,11 @@ class ModelStub:
     def __init__(self, boundary):
         self.tolerance = TOL
         self.boundary = list(boundary)
+        # demand and sink reactions are boundary reactions but not exchanges
+        self.exchanges = list(boundary)[: max(0, len(self.boundary) - 3)]
+        self.demands = list(boundary)[len(self.exchanges):]
+        self.sinks = []
+        self.reactions = list(boundary)
 
 
 class SelfStub:
@@ -91,7 +96,15 @@ class SelfStub:
 
 
 class SolutionStub(dict):
-    pass
+    """A solution given by the caller: its own objective_value need not be the model objective evaluated on its
+    fluxes (e.g. a pFBA solution reports the total flux)."""
+
+    objective_value = 518.4219
+    status = "optimal"
+
+    @property
+    def fluxes(self):
+        return self
 
 
 STUBS = (MetStub, RxnStub, ModelStub, SelfStub, SolutionStub)
